@@ -218,13 +218,26 @@ class SolverIR:
             r = self._seq_iter(it, st, frame)
             if r is None:
                 # iteration over an opaque collection (dict keys, a list of names): one symbolic element
-                if not isinstance(node.target, ast.Name):
+                if isinstance(node.target, ast.Tuple) and len(node.target.elts) == 2 and all(isinstance(e, ast.Name) for e in node.target.elts) \
+                        and isinstance(it, ast.Call) and isinstance(it.func, ast.Attribute) and it.func.attr == 'items' and not it.args:
+                    # for key, value in d.items():  ==  for key in d.keys(): value = d[key]
+                    kname, vname = node.target.elts[0].id, node.target.elts[1].id
+                    key = Unk(f'each<{ast.unparse(it.func.value)[:50]}.keys()>')
+                    dval = self.sx.eval1(it.func.value, st, frame)
+                    L.kind = 'each'
+                    L.var = kname
+                    L.iter_text = ast.unparse(it.func.value)[:100] + '.keys()'
+                    env_binds[kname] = key
+                    env_binds[vname] = self.sx.subscript(dval, key, st, frame, node)
+                    r = ((Rat.const(0), Rat.const(0)), None)
+                elif not isinstance(node.target, ast.Name):
                     raise CannotDecide(f'loop over `{ast.unparse(node.iter)[:60]}` at line {node.lineno} is outside the '
                                        f'recognised idioms')
-                L.kind = 'each'
-                L.var = node.target.id
-                env_binds[L.var] = Unk(f'each<{ast.unparse(node.iter)[:60]}>')
-                r = ((Rat.const(0), Rat.const(0)), None)
+                else:
+                    L.kind = 'each'
+                    L.var = node.target.id
+                    env_binds[L.var] = Unk(f'each<{ast.unparse(node.iter)[:60]}>')
+                    r = ((Rat.const(0), Rat.const(0)), None)
             (a, b), base = r
             if L.kind != 'each':
                 L.kind, L.start, L.stop, L.step = 'index', a, b, Rat.const(1)
